@@ -10,12 +10,12 @@ package main
 // and reported, never called "discharged".
 
 import (
-	"os"
 	"fmt"
 	"go/constant"
 	"go/token"
 	"go/types"
 	"math"
+	"os"
 
 	"golang.org/x/tools/go/ssa"
 )
@@ -54,7 +54,7 @@ type oracleFunc func(it *Interp, s *State, args []AV) [][]AV
 
 type State struct {
 	rel    map[string]uint8 // Interp.Terms: what earlier undecided comparisons on this path established between two terms (bit 1: <, 2: ==, 4: >)
-	notes  map[string]AV // values a multi-step rule keeps between steps
+	notes  map[string]AV    // values a multi-step rule keeps between steps
 	heap   map[int]AV
 	frames []*Frame
 	trail  []trailEntry
@@ -84,54 +84,54 @@ type Fault struct {
 }
 
 type Limits struct {
-	MaxStates    int
-	MaxSteps     int
-	MaxVisits    int
-	MaxDepth     int
+	MaxStates int
+	MaxSteps  int
+	MaxVisits int
+	MaxDepth  int
 }
 
 type Interp struct {
-	p          *Program
-	lim        Limits
-	nextCell   int
-	nextSym    int
-	work       []*State
-	Faults     []*Fault
-	Finished   []*State
-	Paths      int
-	Truncated  int
-	TruncWhy   map[string]int
-	Steps      int
-	baseHeap   map[int]AV
-	globals    map[*ssa.Global]int
-	Unsupported map[string]int
-	liveCache  map[*ssa.Function]*liveInfo
-	seen       map[uint64]bool
-	Merged     int
-	NFinished  int
+	p            *Program
+	lim          Limits
+	nextCell     int
+	nextSym      int
+	work         []*State
+	Faults       []*Fault
+	Finished     []*State
+	Paths        int
+	Truncated    int
+	TruncWhy     map[string]int
+	Steps        int
+	baseHeap     map[int]AV
+	globals      map[*ssa.Global]int
+	Unsupported  map[string]int
+	liveCache    map[*ssa.Function]*liveInfo
+	seen         map[uint64]bool
+	Merged       int
+	NFinished    int
 	KeepFinished bool // keep the final states (needed only for postconditions)
-	InitNotes  map[string]string
-	Hostile    bool // decoder analysis: symbols are attacker-chosen
-	allocLimit func(n int64, in ssa.Instruction, s *State) string // optional: judge allocation sizes
+	InitNotes    map[string]string
+	Hostile      bool                                               // decoder analysis: symbols are attacker-chosen
+	allocLimit   func(n int64, in ssa.Instruction, s *State) string // optional: judge allocation sizes
 	// Oracles: module functions that are not entered; every call forks the
 	// path once per listed outcome (result tuple) and is logged in State.events.
 	Oracles map[*ssa.Function]oracleFunc
 	// Terms: floats computed from identified unknowns carry their rational function (interp_terms.go)
-	Terms    bool
-	absAtoms map[string]int
-	absOf    map[int]*fterm
-	atomFn   map[int]string
-	atomArgs map[int][2]int
-	Precise     bool // byte-precise library models (interp_precise.go)
-	preciseKind map[int]string
-	curState  *State
-	MaxIter         int  // >0: bound on the iterations of a loop whose own condition is decided (default 5000)
-	TermLimit       int  // >0: a computed float whose term has more monomials than this becomes a plain unknown
-	GeneralPosition bool // two different free inputs are never equal (a stated restriction of the rule that sets it)
-	Intervals bool // propagate float intervals through arithmetic (interp_intervals.go)
-	NonNeg   map[int]bool // atoms known to be >= 0 (answers of distance oracles)
-	Positive map[int]bool // atoms taken to be > 0 (a stated restriction of the rule that sets them)
-	inputLen   int
+	Terms           bool
+	absAtoms        map[string]int
+	absOf           map[int]*fterm
+	atomFn          map[int]string
+	atomArgs        map[int][2]int
+	Precise         bool // byte-precise library models (interp_precise.go)
+	preciseKind     map[int]string
+	curState        *State
+	MaxIter         int          // >0: bound on the iterations of a loop whose own condition is decided (default 5000)
+	TermLimit       int          // >0: a computed float whose term has more monomials than this becomes a plain unknown
+	GeneralPosition bool         // two different free inputs are never equal (a stated restriction of the rule that sets it)
+	Intervals       bool         // propagate float intervals through arithmetic (interp_intervals.go)
+	NonNeg          map[int]bool // atoms known to be >= 0 (answers of distance oracles)
+	Positive        map[int]bool // atoms taken to be > 0 (a stated restriction of the rule that sets them)
+	inputLen        int
 }
 
 // NewInterpPrecise: like NewInterp, with the byte-precise library models on
